@@ -478,35 +478,56 @@ func (env *SpecEnv) evalQuant(x *SExpr) *Val {
 	}
 	qfacts = nil
 	if x.Name == "forall" {
-		return boolVal(fmt.Sprintf("(forall (%s) %s)", strings.Join(decls, " "), implies(and(append(guards, qfacts...)...), b)))
+		body := implies(and(append(guards, qfacts...)...), b)
+		if pats := selectPatterns(body, bnames); pats != "" {
+			body = fmt.Sprintf("(! %s %s)", body, pats)
+		}
+		return boolVal(fmt.Sprintf("(forall (%s) %s)", strings.Join(decls, " "), body))
 	}
 	return boolVal(fmt.Sprintf("(exists (%s) %s)", strings.Join(decls, " "), and(append(append(guards, qfacts...), b)...)))
 }
 
-// affineRest: if idx is vn, (+ X vn), (+ vn X) or (- vn X) with X free of vn, return the
-// offset e0 such that idx = vn + e0.
-func affineRest(idx, vn string) (string, bool) {
-	if idx == vn {
-		return "0", true
+// selectPatterns: explicit triggers "(select A v)" for a single bound variable v that is
+// used directly as an array index (after the change of variables).
+func selectPatterns(body string, bnames []string) string {
+	if len(bnames) != 1 {
+		return ""
 	}
-	args, op := sexprArgs(idx)
-	if len(args) != 2 {
-		return "", false
+	v := bnames[0]
+	seen := map[string]bool{}
+	var pats []string
+	needle := " " + v + ")"
+	i := 0
+	for {
+		j := strings.Index(body[i:], needle)
+		if j < 0 {
+			break
+		}
+		end := i + j + len(needle)
+		// walk back to the matching "(select "
+		k := i + j
+		// array symbol is the token before
+		st := k
+		for st > 0 && body[st-1] != ' ' && body[st-1] != '(' {
+			st--
+		}
+		if body[st-1] == ' ' {
+			// handle |quoted| symbols containing no spaces only
+			pre := strings.TrimSuffix(body[:st-1], "")
+			if strings.HasSuffix(pre, "(select") {
+				pat := "(select " + body[st:end]
+				if !strings.ContainsAny(body[st:k], "()") && !seen[pat] {
+					seen[pat] = true
+					pats = append(pats, ":pattern ("+pat+")")
+				}
+			}
+		}
+		i = end
 	}
-	switch op {
-	case "+":
-		if args[0] == vn && !strings.Contains(args[1], vn) {
-			return args[1], true
-		}
-		if args[1] == vn && !strings.Contains(args[0], vn) {
-			return args[0], true
-		}
-	case "-":
-		if args[0] == vn && !strings.Contains(args[1], vn) {
-			return "(- " + args[1] + ")", true
-		}
+	if len(pats) == 0 || len(pats) > 6 {
+		return ""
 	}
-	return "", false
+	return strings.Join(pats, " ")
 }
 
 func (env *SpecEnv) evalBin(x *SExpr) *Val {
@@ -780,6 +801,11 @@ func (env *SpecEnv) evalValueSel(x *SExpr) *Val {
 				}
 			}
 		}
+		if base.K == KIface && bt != nil {
+			if g := e.w.ghostField(bt, x.Name); g != nil {
+				return env.ghostLoad(g, base.S[1])
+			}
+		}
 		if base.K == KStruct {
 			path, ok := fieldPath(base.T, x.Name)
 			if !ok {
@@ -832,6 +858,10 @@ func (env *SpecEnv) evalValueSel(x *SExpr) *Val {
 
 func (env *SpecEnv) ghostLoad(g *GhostField, addr string) *Val {
 	sortS, k := ghostSort(g.Typ)
+	if env.e.ghostComps == nil {
+		env.e.ghostComps = map[string]bool{}
+	}
+	env.e.ghostComps["F:"+g.Pkg+"."+g.Type+"."+g.Field] = true
 	arr := env.e.comp(env.cur, "F:"+g.Pkg+"."+g.Type+"."+g.Field, "(Array Int "+sortS+")")
 	switch k {
 	case KBool:
@@ -912,6 +942,12 @@ func (env *SpecEnv) evalCall(x *SExpr) *Val {
 		case "allocated":
 			v := env.eval(args[0])
 			return boolVal(fmt.Sprintf("(< %s %s)", v.S[0], env.cur.alloc))
+		case "obj":
+			v := env.eval(args[0])
+			if v.K == KIface {
+				return mathInt(v.S[1])
+			}
+			return mathInt(v.term())
 		case "typeof":
 			v := env.eval(args[0])
 			if v.K != KIface {
@@ -1017,7 +1053,7 @@ func (env *SpecEnv) expandPureIn(argEnv *SpecEnv, pf *PureFunc, recv *Val, args 
 	if len(args) != len(pf.Params) {
 		env.fail("wrong number of arguments to %s", pf.Name)
 	}
-	n := &SpecEnv{e: env.e, cur: argEnv.cur, old: argEnv.old, pkg: pf.Pkg, depth: env.depth + 1, bound: argEnv.bound}
+	n := &SpecEnv{e: env.e, cur: argEnv.cur, old: argEnv.old, pkg: pf.Pkg, depth: env.depth + 1, facts: argEnv.facts, uses: argEnv.uses}
 	n.vars = map[string]*Val{}
 	if pf.Recv != "" {
 		n.vars[pf.Recv] = recv
@@ -1168,6 +1204,12 @@ func (e *Enc) evalModTarget(x *SExpr, env *SpecEnv) []modTarget {
 					return []modTarget{{comp: "F:" + g.Pkg + "." + g.Type + "." + g.Field, sort: "(Array Int " + sortS + ")", kind: "point", addr: base.term()}}
 				}
 			}
+			if base.K == KIface {
+				if g := e.w.ghostField(base.T, x.Name); g != nil {
+					sortS, _ := ghostSort(g.Typ)
+					return []modTarget{{comp: "F:" + g.Pkg + "." + g.Type + "." + g.Field, sort: "(Array Int " + sortS + ")", kind: "point", addr: base.S[1]}}
+				}
+			}
 		}
 	}
 	r := env.refOrNil(x)
@@ -1189,4 +1231,57 @@ func (env *SpecEnv) evalOrNilSafe(x *SExpr) (v *Val) {
 		}
 	}()
 	return env.eval(x)
+}
+
+// affineRest: if idx is linear in vn with coefficient 1 (over + and -), return e0 with
+// idx = vn + e0.
+func affineRest(idx, vn string) (string, bool) {
+	c, ok := linCoef(idx, vn)
+	if !ok || c != 1 {
+		return "", false
+	}
+	if idx == vn {
+		return "0", true
+	}
+	return strings.ReplaceAll(idx, vn, "0"), true
+}
+
+func linCoef(t, vn string) (int, bool) {
+	if t == vn {
+		return 1, true
+	}
+	if !strings.Contains(t, vn) {
+		return 0, true
+	}
+	args, op := sexprArgs(t)
+	switch op {
+	case "+":
+		sum := 0
+		for _, a := range args {
+			c, ok := linCoef(a, vn)
+			if !ok {
+				return 0, false
+			}
+			sum += c
+		}
+		return sum, true
+	case "-":
+		if len(args) == 1 {
+			c, ok := linCoef(args[0], vn)
+			return -c, ok
+		}
+		c0, ok := linCoef(args[0], vn)
+		if !ok {
+			return 0, false
+		}
+		for _, a := range args[1:] {
+			c, ok := linCoef(a, vn)
+			if !ok {
+				return 0, false
+			}
+			c0 -= c
+		}
+		return c0, true
+	}
+	return 0, false
 }
